@@ -183,6 +183,20 @@ CLAIMED['C11'] = dict(
          "group delimiting and attachment of comments (AST), the <= 2021 UseSegment order, compare_items, permutation -> same text.",
     design='§5 C11')
 
+CLAIMED['C03'] = dict(
+    category='model_checking',
+    text="Text-level kernels of src/comment.rs on their real (generic) MIR: is_raw_string_suffix with a MultiPeek cursor over 4 symbolic look-ahead "
+         "characters (true iff the next `count` characters are all '#', count 0..3); changed_comment_content, the lost-comment safety net, with "
+         "harness-supplied slice lists (<= 2 slices of symbolic kind per text) and an abstract payload function: it reports a change exactly when the "
+         "payload streams of ALL comment slices differ, so no comment slice is exempt from the comparison; CharClasses::next as one step from each "
+         "comment-tracking status with symbolic current/look-ahead characters and symbolic nesting depth: /* and // and nothing else start a comment, "
+         "nesting is counted, a block comment ends when the depth reaches zero, a line comment ends at the newline, code is never labelled comment.",
+    note="Trusted: MIR printer, mirsym, itertools MultiPeek cursor semantics, tracing disabled, payload(text) abstract (CommentReducer itself is not "
+         "encoded), lazy iterator adaptors with the real closure MIR. Outside: whether each rewriter calls the safety net, list machinery, close_block, "
+         "rewrite_comment, whole-text agreement of the string/char/lifetime segmentation with the Rust lexer. Replay: real binary on crafted sources, "
+         "each comment word must appear exactly once.",
+    design='§5 C03')
+
 NA = {
     'C01': "token-sequence equivalence over all programs requires symbolic execution of rustc_parse and ~30 kLoC of AST rewriters; no encodable kernel carries it",
     'C02': "fixed-point of the full formatting pipeline (parser + all rewriters on both sides); not encodable, and idempotence of kernels does not imply it",
